@@ -258,13 +258,17 @@ Fixpoint run_plan (c : content) (dir_base : nat) (plan : list step) (idx : nat) 
       end
   end.
 
-(* generate_dump: header slot, directory array, header value, then the plan (per-dump state reset first) *)
-Definition image (c : content) : W (list dirent * list snap) :=
+(* generate_dump: header slot, directory array, header value ... *)
+Definition image_head (c : content) : W nat :=
   hd <- w_alloc KHeader (repeat 0%N HEADER_SZ) ;;
   dir <- w_alloc KDirectory (repeat 0%N (DIRENT_SZ * NUM_DIRS)) ;;
   w_patch (N.to_nat (l_rva hd)) (enc_header (ic_time c) (l_rva dir)) ;;;
+  ret (N.to_nat (l_rva dir)).
+(* ... then the plan (per-dump state reset first) *)
+Definition image (c : content) : W (list dirent * list snap) :=
+  base <- image_head c ;;
   s0 <- w_get ;;
-  run_plan c (N.to_nat (l_rva dir)) (map fst stream_plan) 0 ([], CNone) [] [(s0, [])].
+  run_plan c base (map fst stream_plan) 0 ([], CNone) [] [(s0, [])].
 
 Definition image_bytes (c : content) : option bytes :=
   match image c empty_wst with Ok (_, s) => Some (w_buf s) | _ => None end.
